@@ -49,6 +49,13 @@ def run_program(build, prog, route, workdir, qlevel=None, extra_args=(), timeout
     if route == "interp":
         rc, out, err, to = vlib.aldor(build, q + list(extra_args) + ["-Ginterp", "p.as"], d, timeout=timeout, env=env)
         return {"rc": rc, "out": out.decode(errors="replace"), "err": err.decode(errors="replace"), "phase": "interp", "timeout": to, "dir": d}
+    if route == "ao":
+        # save the machine-independent object, then interpret the saved form
+        rc, out, err, to = vlib.aldor(build, q + list(extra_args) + ["-Fao", "p.as"], d, timeout=timeout, env=env)
+        if rc != 0 or to or not os.path.exists(os.path.join(d, "p.ao")):
+            return {"rc": rc, "out": out.decode(errors="replace"), "err": err.decode(errors="replace"), "phase": "compile", "timeout": to, "dir": d}
+        rc, out, err, to = vlib.aldor(build, q + list(extra_args) + ["-laxllib", "-Ginterp", "p.ao"], d, timeout=timeout, env=env)
+        return {"rc": rc, "out": out.decode(errors="replace"), "err": err.decode(errors="replace"), "phase": "interp", "timeout": to, "dir": d}
     if route == "c":
         rc, out, err, to = vlib.aldor(build, q + list(extra_args) + ["-Fc", "-Fmain", "p.as"], d, timeout=timeout, env=env)
         if rc != 0 or to:
